@@ -36,14 +36,18 @@ def clog(z):
 # --------------------------------------------------------------------------
 # error models:   kinds 'gauss', 'mult', 'cm', 'lognorm'
 # --------------------------------------------------------------------------
-EM_NPAR = {'gauss': 1, 'mult': 1, 'cm': 2, 'lognorm': 1}
+EM_NPAR = {'gauss': 1, 'mult': 1, 'cm': 2, 'lognorm': 1, 'user3': 3}
 EM_DEFAULT_NAMES = {
     'gauss': ['Sigma'], 'mult': ['Sigma rel.'],
-    'cm': ['Sigma base', 'Sigma rel.'], 'lognorm': ['Sigma log']}
+    'cm': ['Sigma base', 'Sigma rel.'], 'lognorm': ['Sigma log'], 'user3': ['Sigma base', 'Sigma rel.', 'Power']}
 
 
 def em_class(kind):
     import chi
+    if kind == 'user3':
+        # a user-defined error model with three parameters (vf/user_em.py); only offered where a check asks for it
+        from vf.user_em import PowerGaussianErrorModel
+        return PowerGaussianErrorModel
     return {
         'gauss': chi.GaussianErrorModel,
         'mult': chi.MultiplicativeGaussianErrorModel,
